@@ -28,6 +28,7 @@ ASSUMPTIONS = [
 RULE = ('correspondence: generated key lists (identifier-like, needing quotes: spaces, dots, brackets, empty, leading digit, non-ASCII, backslash; negative ints), malformed path texts, '
         'documents of depth <= 3 with null / booleans / ints / decimal floats incl. 0.0 and -0.0 / empty containers, arrays of ints with indexes and bounds in [-2len-2, len+2]; one vm_compute '
         'boolean per (function, input). search: the same space through real queries on SQLite with JSON1 and with the fallback forced: path extraction (constant and parameter keys), '
+        'several paths in one query sharing an external variable and differing in literal steps (projection pairs / triples, comparisons between paths, mixed with array paths), '
         'truthiness, len, key/item membership, == with int/str, array index / slice / len / membership / subset; non-trivial = the Python side returned a value (distinct canonical cases counted)')
 
 KEYS = ['a', 'b', 'k1', 'a b', 'd.e', '', '1a', 'é', 'aé', 'x[0]', '$', 'a\\b', "q'r", 'x"y']
@@ -246,6 +247,26 @@ def correspondence(ctx):
                     add('contains', 'Bool.eqb (json_contains %s %s) %s' % (cjv(val), czs(key), 'true' if c else 'false'), [doc, path, key], c)
         if len(samples) < 2: samples.append({'doc': doc, 'text': text})
 
+    # (6b) the bind-parameter key build_json_path registers for parameterised paths (several paths per query, shared variables)
+    def citem(x, key):
+        if x[0] == 'P': return '(%s %d%%nat)' % ('KP' if key else 'IParam', x[1])
+        if x[0] == 'V': return '(%s %s)' % ('KV' if key else 'ILit', ckeys([x[1]])[1:-1])
+        if x[0] == 'E': return 'KEll' if key else 'IEllipsis'
+        return 'KNone' if key else 'ISlice'
+    pk_queries = []
+    for _ in range(12 * scale):
+        k1, k2, k3 = rng.sample(['lo', 'hi', 'mid', 'a b', 'x', 'k1'], 3)
+        pk_queries += [("(e.j[k][%r], e.j[k][%r]) for e in E" % (k1, k2), {'k': 'p'}),
+                       ("(e.j[%r][i], e.j[%r][i], e.j[%r][i]) for e in E" % (k1, k2, k3), {'i': rng.randint(0, 3)}),
+                       ("e.id for e in E if e.j[k][%r] == e.j[k][%r]" % (k1, k2), {'k': 'p'}),
+                       ("(e.j[k][%r][i], e.j[k][%r][i + 1], e.a[i]) for e in E" % (k1, k1), {'k': 'p', 'i': 0}),
+                       ("(e.j[%r][k], e.j[%r][k][%d]) for e in E" % (k1, k1, rng.randint(0, 2)), {'k': k2})]
+    try:
+        for src, key, path in c29_impl.record_paramkeys(pk_queries):
+            add('paramkey', 'kitems_eqb (paramkey [%s]) [%s]' % ('; '.join(citem(x, False) for x in path), '; '.join(citem(x, True) for x in key)), src, [key, path])
+    except Exception as e:
+        disagreements.append({'what': 'build_json_path parameter keys could not be recorded: %s: %s' % (type(e).__name__, e), 'input': 'paramkey'})
+
     # (7) arrays: the index expression ArrayMixin._index builds, and the helper functions
     for prov, p1 in (('sqlite', 0), ('postgres', 1)):
         for v in range(-7, 8):
@@ -427,6 +448,41 @@ def search(ctx, deep):
                 else: key = 'unlisted:%s:%s:%s' % (kind, mode, 'param' if kind == 'extract_param' else 'const')
                 record(key, 'C29 %s [%s]: %s %r gives %r, Python gives %r' % (kind, mode, src, params, got, want), data)
 
+            # several JSON paths in one query sharing an external variable at the same position and differing in literal steps
+            if rnd < ctx.scale(2, 8):
+                # single digits only: two JSON items are ordered by their text on SQLite (recorded finding), which for one digit is the numeric order
+                sdocs = [{'p': {'lo': rng.randint(0, 5), 'hi': rng.randint(3, 9), 'mid': rng.randint(0, 9)}, 'q': {'lo': 7, 'hi': 2, 'mid': 5},
+                          'l': [rng.randint(0, 2) for _ in range(3)], 'm': [rng.randint(3, 5) for _ in range(3)], 'n': [7, 8, 9]} for _ in range(4)]
+                if rnd == 0:
+                    c29_impl.load_rows(json1, [{'l': [5], 'm': [12]}], [])
+                    st, rows = c29_impl.run_query(json1, "e.j['l'][0] for e in E if e.j['l'][0] < e.j['m'][0]", {})
+                    evals += 1; dist['queries'] += 1; count('order')
+                    if (st, rows) != ('ok', [5]):
+                        record('json-items-ordered-as-text', "C29 order [%s]: e.j['l'][0] < e.j['m'][0] with 5 and 12 stored selects %r, Python selects the row" % (mode, rows),
+                               {'mode': mode, 'kind': 'shared', 'docs': [{'l': [5], 'm': [12]}], 'arrays': [], 'src': "e.j['l'][0] for e in E if e.j['l'][0] < e.j['m'][0]", 'params': {}, 'want': [5]})
+                sarrs = [[rng.randint(0, 9) for _ in range(3)] for _ in range(4)]
+                sids = c29_impl.load_rows(json1, sdocs, sarrs)
+                sd = dict(zip(sids, sdocs)); sa = dict(zip(sids, sarrs))
+                shared = []
+                for k in ('p', 'q'):
+                    shared.append(("(e.id, e.j[k]['lo'], e.j[k]['hi']) for e in E", {'k': k}, sorted([i, d[k]['lo'], d[k]['hi']] for i, d in sd.items()), 'pair'))
+                    shared.append(("(e.id, e.j[k]['hi'], e.j[k]['mid'], e.j[k]['lo']) for e in E", {'k': k}, sorted([i, d[k]['hi'], d[k]['mid'], d[k]['lo']] for i, d in sd.items()), 'triple'))
+                    shared.append(("e.id for e in E if e.j[k]['lo'] < e.j[k]['hi']", {'k': k}, sorted(i for i, d in sd.items() if d[k]['lo'] < d[k]['hi']), 'comparison'))
+                    shared.append(("e.id for e in E if e.j[k]['lo'] == e.j[k]['mid']", {'k': k}, sorted(i for i, d in sd.items() if d[k]['lo'] == d[k]['mid']), 'comparison'))
+                for ix in (0, 2):
+                    shared.append(("(e.id, e.j['l'][i], e.j['m'][i], e.j['n'][i]) for e in E", {'i': ix}, sorted([i, d['l'][ix], d['m'][ix], d['n'][ix]] for i, d in sd.items()), 'index'))
+                    shared.append(("(e.id, e.j['l'][i], e.a[i], e.j['m'][i]) for e in E", {'i': ix}, sorted([i, d['l'][ix], sa[i][ix], d['m'][ix]] for i, d in sd.items()), 'with-array'))
+                    shared.append(("e.id for e in E if e.j['l'][i] < e.j['m'][i] and e.j['m'][i] < e.j['n'][i]", {'i': ix}, sorted(sd), 'comparison'))
+                for src, params, want, shape in shared:
+                    st, rows = c29_impl.run_query(json1, src, params)
+                    evals += 1; dist['queries'] += 1; count('shared-variable')
+                    got = rows if st == 'exc' else sorted(rows)
+                    nontriv.add(json.dumps(['shared', src, params]))
+                    if got != want:
+                        record('json-paths-sharing-a-parameter:%s' % shape, 'C29 shared-variable [%s]: %s %r gives %r, Python gives %r' % (mode, src, params, got, want),
+                               {'mode': mode, 'kind': 'shared', 'docs': sdocs, 'arrays': sarrs, 'src': src, 'params': params, 'want': want})
+                ids = c29_impl.load_rows(json1, docs, arrays)
+                doc_of = dict(zip(ids, docs)); arr_of = dict(zip(ids, arrays))
             # arrays
             acases = []
             idxs = list(range(-7, 7)) if rnd == 0 else [rng.randint(-12, 7) for _ in range(6)]
@@ -486,6 +542,15 @@ def replay(ctx, data):
     """re-run one stored case (same classification code as the search, on the stored documents / arrays only)"""
     mode = data['mode']; json1 = mode == 'json1'
     kind = data['kind']
+    if kind == 'shared':
+        ids = c29_impl.load_rows(json1, data['docs'], data['arrays'])
+        st, rows = c29_impl.run_query(json1, data['src'], data['params'])
+        got = rows if st == 'exc' else sorted(rows)
+        # ids are assigned afresh: compare without the id column when rows are lists
+        strip = lambda rs: sorted((r[1:] if isinstance(r, list) else 0) for r in rs) if rs and isinstance(rs[0], list) else len(rs)
+        if st == 'exc' or strip(got) != strip(data['want']):
+            return Failure(data.get('key', 'replayed'), 'C29 shared-variable [%s]: %s %r gives %r, expected %r' % (mode, data['src'], data['params'], got, data['want']), data)
+        return None
     if kind.startswith('a'):
         arrays = data['arrays']; x, y = data.get('x'), data.get('y')
         ids = c29_impl.load_rows(json1, [], arrays); arr_of = dict(zip(ids, arrays)); params = {}
